@@ -3,6 +3,7 @@ package main
 import (
 	"context"
 	"database/sql"
+	"database/sql/driver"
 	"fmt"
 	"strings"
 	"time"
@@ -25,7 +26,7 @@ func runC16WaitOptions(c *Ctx, w *ATWorld) {
 	at.LockConfig = rm.LockConfig{RetryTimes: 4, RetryInterval: 400 * time.Millisecond}
 	defer func() { at.LockConfig = oldLock }()
 	n := 0
-	for _, suffix := range []string{" NOWAIT", " SKIP LOCKED", " /* matches nothing */"} {
+	for _, suffix := range []string{" NOWAIT", " SKIP LOCKED", " /* matches nothing */", " WAIT 1"} {
 		for _, explicit := range []bool{false, true} {
 			n++
 			cid := fmt.Sprintf("c16-w%d", n)
@@ -41,6 +42,14 @@ func runC16WaitOptions(c *Ctx, w *ATWorld) {
 			other, oerr := w.Bare.BeginTx(context.Background(), nil)
 			if oerr == nil {
 				_, oerr = other.ExecContext(context.Background(), "UPDATE "+table+" SET n = 1 WHERE id = 2")
+			}
+			if strings.Contains(suffix, "WAIT 1") {
+				// the holder lets go well within the second the statement is prepared to wait: the read returns
+				// its rows, through the plain driver and through the proxy (once for each)
+				go func(o *sql.Tx) {
+					time.Sleep(300 * time.Millisecond)
+					o.Rollback()
+				}(other)
 			}
 			q := "SELECT id, n FROM " + table + " WHERE id <= 3 FOR UPDATE" + suffix
 			if strings.Contains(suffix, "nothing") {
@@ -87,6 +96,16 @@ func runC16WaitOptions(c *Ctx, w *ATWorld) {
 			var tp, tb time.Duration
 			crash := safeCall(func() {
 				bare, tb = run(context.Background(), w.Bare)
+				if strings.Contains(suffix, "WAIT 1") {
+					// the same again for the proxy: row 2 held for 300 ms
+					if o2, err := w.Bare.BeginTx(context.Background(), nil); err == nil {
+						o2.ExecContext(context.Background(), "UPDATE "+table+" SET n = 1 WHERE id = 2")
+						go func() {
+							time.Sleep(300 * time.Millisecond)
+							o2.Rollback()
+						}()
+					}
+				}
 				InGlobalTx(cid, func(ctx context.Context) error {
 					proxy, tp = run(ctx, w.DB)
 					return nil
@@ -103,7 +122,7 @@ func runC16WaitOptions(c *Ctx, w *ATWorld) {
 				class, detail = "crash", crash
 			case oerr != nil:
 				class, detail = "setup", oerr.Error()
-			case proxy != bare || tp > 700*time.Millisecond:
+			case proxy != bare || tp > 700*time.Millisecond+tb:
 				class = "wait_option_void_inside_global_tx"
 				if strings.Contains(suffix, "SKIP") {
 					class = "skip_locked_waits_inside_global_tx"
@@ -218,5 +237,72 @@ func runC16ResultSets(c *Ctx, w *ATWorld) {
 			c.Out.Count("result-sets." + mode)
 			w.Eng.DropTable(table)
 		}
+	}
+}
+
+// ---- a pooled connection the server dropped while it was idle: the first command on it answers "bad connection",
+// database/sql discards the connection and sends the statement again on a fresh one - the application notices
+// nothing. Through the proxy the first command is one of the proxy's own (BEGIN, XA START): the statement must
+// come out the same (cases c16-b*).
+func runC16BadConnection(c *Ctx, w *ATWorld) {
+	xa := w.OpenXA()
+	n := 0
+	for _, mode := range []string{"at", "xa"} {
+		n++
+		cid := fmt.Sprintf("c16-b%d", n)
+		if !c.Want(cid) {
+			continue
+		}
+		table := w.NewTableName("badc")
+		w.Eng.CreateTable(memdb.TableDef{Name: table, Cols: []memdb.Column{{Name: "id", Type: memdb.TBigInt}, {Name: "n", Type: memdb.TBigInt, Nullable: true}}, PK: []string{"id"}})
+		w.Eng.InsertRows(table, memdb.Row{int64(1), int64(0)}, memdb.Row{int64(2), int64(0)})
+		w.coord.ResetLog()
+		var bareErr, proxyErr error
+		var xid string
+		crash := safeCall(func() {
+			// the plain driver: the statement itself is the first command
+			w.Eng.AddFault(memdb.Fault{Kind: "update", Table: table, Nth: 1, Err: driver.ErrBadConn})
+			_, bareErr = w.Bare.ExecContext(context.Background(), "UPDATE "+table+" SET n = 5 WHERE id = 1")
+			w.Eng.ClearFaults()
+			first := "begin"
+			db := w.DB
+			if mode == "xa" {
+				first, db = "xa_start", xa
+			}
+			w.Eng.AddFault(memdb.Fault{Kind: first, Nth: 1, Err: driver.ErrBadConn})
+			xid, _ = InGlobalTx(cid, func(ctx context.Context) error {
+				sctx, cancel := context.WithTimeout(ctx, 10*time.Second)
+				defer cancel()
+				_, proxyErr = db.ExecContext(sctx, "UPDATE "+table+" SET n = 5 WHERE id = 2")
+				return nil
+			})
+			w.Eng.ClearFaults()
+		})
+		reported := w.coord.ReportedFailed(xid)
+		for _, b := range w.coord.RegisteredBranches(xid) {
+			if !reported[b.BranchID] {
+				w.coord.CommitBranch(w.coord.LastSession(), b, 3*time.Second)
+			}
+		}
+		final := w.DumpTable(table)
+		c.Out.Case(cid, "C16", "skip", "skip")
+		class, detail := "", ""
+		switch {
+		case crash != "":
+			class, detail = "crash", crash
+		case bareErr != nil:
+			class, detail = "setup", "the plain driver did not get over the bad connection: "+bareErr.Error()
+		case proxyErr != nil:
+			class, detail = "bad_connection_reaches_the_application", proxyErr.Error()
+		case final != "i1,i5;i2,i5":
+			class, detail = "different_data", final
+		}
+		if len(w.Eng.OpenTxns()) > 0 && class == "" {
+			class, detail = "transaction_left_open", fmt.Sprint(w.Eng.OpenTxns())
+		}
+		c.Out.Oracle(cid, class == "", class, fmt.Sprintf("%s | mode=%s final=%s", detail, mode, final))
+		c.Out.Tag(cid, "nontrivial=1")
+		c.Out.Count("bad-connection." + mode)
+		w.Eng.DropTable(table)
 	}
 }
